@@ -817,6 +817,10 @@ fn rl_vector(em: &mut Emit, rng: &mut Rng, len: usize, runs: &[(usize, usize)], 
     let exact = Caps { back: false, exact: true, dup: true };
     let noexact = Caps { back: false, exact: false, dup: true };
     let mut entries = vec![Entry::Runs, Entry::Iter, Entry::One, Entry::Zero];
+    if len > 6000 {
+        // the all-bits / unset-bits reference lists of a long vector are expensive to ship; the other iterators stay
+        entries = vec![Entry::Runs, Entry::One];
+    }
     for _ in 0..nentries {
         entries.push(Entry::Select(pick_arg(rng, ones)));
         entries.push(Entry::SelectZero(pick_arg(rng, zeros)));
@@ -829,6 +833,31 @@ fn rl_vector(em: &mut Emit, rng: &mut Rng, len: usize, runs: &[(usize, usize)], 
             entries.push(Entry::Pred(s + l));
             entries.push(Entry::Succ(s + l - 1));
             entries.push(Entry::Succ(s + l));
+        }
+    }
+    // iterators positioned at the last run of an encoding block (and at the first of the next one): continuing them
+    // crosses the block boundary, padding included
+    let blocks = rl_blocks(runs);
+    if blocks.len() > 1 {
+        em.out.stat("c10.rl.multi_block");
+        let mut rank = 0usize;
+        let mut edges: Vec<(usize, usize, usize)> = Vec::new(); // (start, len, rank of start) of the last run of each non-final block
+        for (bi, blk) in blocks.iter().enumerate() {
+            for (ri, (s, l)) in blk.iter().enumerate() {
+                if ri + 1 == blk.len() && bi + 1 < blocks.len() {
+                    edges.push((*s, *l, rank));
+                }
+                rank += *l;
+            }
+        }
+        for _ in 0..std::cmp::min(3, edges.len()) {
+            let (s, l, rk) = edges[rng.below(edges.len() as u64) as usize];
+            entries.push(Entry::Pred(s + l - 1));
+            entries.push(Entry::Pred(s + rng.below(l as u64) as usize));
+            entries.push(Entry::Succ(s + l - 1));
+            entries.push(Entry::Select(rk + l - 1));
+            entries.push(Entry::SelectZero((s + l - 1) - (rk + l - 1)));
+            em.out.stat("c10.rl.block_edge_entries");
         }
     }
     for e in entries.iter() {
@@ -1145,6 +1174,22 @@ pub fn run(rng: &mut Rng, out: &mut Out, thorough: bool, variant: &str) {
         let k = 10 + rng.below(30) as usize;
         let (len, runs) = gen_runs(rng, k, 70, 40);
         rl_vector(&mut em, rng, len, &runs, nent);
+    }
+    // blocks that end in padding: runs of two to four code units, and the block-filling rule at its edges
+    for _ in 0..(4 * reps) {
+        let k = 30 + rng.below(60) as usize;
+        let (len, runs) = gen_runs(rng, k, 70, 9);
+        rl_vector(&mut em, rng, len, &runs, nent);
+    }
+    for slack in [-1i64, 0, 1] {
+        for _ in 0..reps {
+            let v = *rng.pick(&rl_unit_boundaries(4));
+            let in_len = rng.below(2) == 0;
+            let lead = rng.below(2) as usize;
+            let after = 2 + rng.below(12) as usize;
+            let (len, runs) = rl_directed(rng, v, in_len, slack, lead, after);
+            rl_vector(&mut em, rng, len, &runs, nent);
+        }
     }
     rl_vector(&mut em, rng, 0, &[], nent);
     rl_vector(&mut em, rng, 50, &[], nent);
